@@ -4,7 +4,8 @@ package main
 
 // The receiving side of the nonce-protected message types, built from real
 // arc code: a Coordinator made by NewCoordinator + Start (so the coordinator
-// NonceCache comes from the real construction site), the cache-invalidate and
+// NonceCache comes from the real construction site, whenever in the
+// coordinator's life that site runs), the cache-invalidate and
 // edge-sync HTTP handlers made by their real constructors with the retention
 // and tolerance values of their cmd/arc/main.go construction sites.
 
@@ -169,9 +170,8 @@ func buildWorld(types map[string]bool, hcInterval int) *world {
 		if err := c.Start(); err != nil {
 			harnessFail("Coordinator.Start: %v", err)
 		}
-		if c.VerifNonceCache() == nil {
-			harnessFail("Coordinator.Start left no nonce cache")
-		}
+		// Nothing is assumed about WHEN the coordinator constructs its replay
+		// cache (in Start, on the first request, ...): see coordTTL.
 		w.coord = c
 	}
 	if types[tCacheInv] || types[tEdgeFile] || types[tEdgeRec] {
@@ -234,12 +234,32 @@ func buildWorld(types map[string]bool, hcInterval int) *world {
 func (w *world) ttlOf(t string) time.Duration {
 	switch t {
 	case tSync, tForward:
-		return w.coord.VerifNonceCache().VerifTTL()
+		return w.coordTTL()
 	case tCacheInv:
 		return w.cacheNC.VerifTTL()
 	default:
 		return w.edgeNC.VerifTTL()
 	}
+}
+
+// coordTTL is the retention of the coordinator's replay cache. The cache is
+// looked up at the moment of the question: a coordinator may construct it in
+// Start() or at any later point up to the first replay check. While it does
+// not exist yet the value learned by calibration (a constant of the build,
+// read from a cache object after a request had been served) is used. Having
+// neither is harness trouble: the retention cannot be known.
+func (w *world) coordTTL() time.Duration {
+	if nc := w.coord.VerifNonceCache(); nc != nil {
+		return nc.VerifTTL()
+	}
+	if c, ok := calib.types[tSync]; ok && c.TTL > 0 {
+		return c.TTL
+	}
+	if c, ok := calib.types[tForward]; ok && c.TTL > 0 {
+		return c.TTL
+	}
+	harnessFail("the coordinator has no nonce cache (not after Start, not after requests were served): its retention cannot be determined")
+	return 0
 }
 
 // request is one signed request, kept as the exact bytes that go on the wire
